@@ -112,3 +112,30 @@ pub mod controls {
         h.join().unwrap();
     }
 }
+
+pub mod operator {
+    pub enum StreamElement<T> {
+        Item(T),
+    }
+}
+
+/// C02.R9 / C16.R5 positive control: a batch cut in two and forwarded tail first.
+pub mod partition_control {
+    use crate::operator::StreamElement;
+    pub struct Msg<T> {
+        pub data: Vec<StreamElement<T>>,
+    }
+    impl<T> Msg<T> {
+        pub fn halves(self) -> (Self, Self) {
+            let mut data = self.data;
+            let tail = data.split_off(data.len() / 2);
+            (Msg { data: tail }, Msg { data })
+        }
+    }
+    pub fn ship<T>(_m: Msg<T>) {}
+    pub fn forward_tail_first<T>(m: Msg<T>) {
+        let (a, b) = m.halves();
+        ship(a);
+        ship(b);
+    }
+}
